@@ -382,6 +382,15 @@ func c10Truncate(c *Ctx) {
 	}
 	Explore(fn, fn.Blocks[0], 0, nil, NewState(), h)
 	c.paths += h.Paths
+	// the size comparison that licenses the saved state must look at the cache file as it was found:
+	// no Truncate may run before the Stat whose Size() is compared with the index length
+	for _, stc := range calls(fn, named("(*os.File).Stat", "os.Stat")) {
+		for _, tr := range calls(fn, named("(*os.File).Truncate", "os.Truncate")) {
+			if reachesInstr(tr.(ssa.Instruction), stc.(ssa.Instruction)) {
+				bad = append(bad, fmt.Sprintf("Truncate at %s can run before the Stat at %s whose size decides whether the saved state matches the cache file: the comparison is then always true and a state file is trusted for a cache file that was lost or resized", c.pos(tr.Pos()), c.pos(stc.Pos())))
+			}
+		}
+	}
 	switch {
 	case len(bad) > 0:
 		c.bad("NewSparseFile:truncate-or-state", fn.Pos(), "%s", bad[0])
